@@ -128,6 +128,8 @@ var checks = map[string]*checkDef{
 			{workload: "C06", variant: "force32bit", quick: 1200, thorough: 40000},
 			{workload: "C06C", variant: "instrs", quick: 4000, thorough: 200000},
 			{workload: "C06C", variant: "instrs-purego", quick: 4000, thorough: 200000},
+			{workload: "C06D", variant: "instrc", quick: 480, thorough: 12000, cold: true},
+			{workload: "C06D", variant: "instrc-purego", quick: 480, thorough: 12000, cold: true},
 		},
 		assume: []string{
 			"the oracle is self-differential: the same seeds are executed on the four builds (amd64 assembly + AVX2, GODEBUG=cpu.avx2=off, -tags purego, -tags force32bit) and the per-run event-log digests must be equal; a defect shared by all four backends is invisible",
